@@ -230,12 +230,12 @@ func c08(c *core.Ctx) {
 		ssax.Instrs(signal, false, func(_ *ssa.Function, in ssa.Instruction) {
 			if sel, isSel := in.(*ssa.Select); isSel && !sel.Blocking {
 				for _, st := range sel.States {
-					if st.Send != nil && st.Send == ssa.Value(signal.Params[1]) {
+					if st.Send != nil && st.Send == ssa.Value(paramOf(signal, 1)) {
 						ok = true
 					}
 				}
 			}
-			if snd, isSend := in.(*ssa.Send); isSend && snd.X == ssa.Value(signal.Params[1]) {
+			if snd, isSend := in.(*ssa.Send); isSend && snd.X == ssa.Value(paramOf(signal, 1)) {
 				ok = true
 			}
 		})
